@@ -10,6 +10,7 @@ import (
 	"os/exec"
 	"path/filepath"
 	"runtime"
+	"runtime/pprof"
 	"sort"
 	"strings"
 	"sync"
@@ -61,7 +62,13 @@ func main() {
 	verif := flag.String("verif", "/verif", "verif directory")
 	workers := flag.Int("workers", 0, "worker processes")
 	trace := flag.Bool("trace", false, "print violations in detail")
+	cpuprof := flag.String("cpuprofile", "", "write a CPU profile (development)")
 	flag.Parse()
+	if *cpuprof != "" {
+		f, _ := os.Create(*cpuprof)
+		pprof.StartCPUProfile(f)
+		defer pprof.StopCPUProfile()
+	}
 	world.SetDecoy(decoy)
 	os.Setenv("TZ", "UTC")
 	time.Local = time.UTC
@@ -86,7 +93,8 @@ func main() {
 	case "determinism":
 		os.Exit(determinism(*prop, *seed, *tier, *from, *maxRuns, *base))
 	case "one":
-		os.Exit(one(*prop, *seed, *tier, *from, *base))
+		one(*prop, *seed, *tier, *from, *base)
+		return
 	}
 	fmt.Fprintln(os.Stderr, "unknown mode")
 	os.Exit(2)
@@ -176,6 +184,12 @@ func worker(prop string, seed uint64, tier string, from, stride, maxRuns int, de
 				continue
 			}
 			shrunk[sig] = true
+			// one worker shrinks a signature; the others only count it
+			if f, err := os.OpenFile(filepath.Join(base, fmt.Sprintf("shrunk-%08x", fnv32(sig))), os.O_CREATE|os.O_EXCL|os.O_WRONLY, 0644); err != nil {
+				continue
+			} else {
+				f.Close()
+			}
 			min, mres := shrink(pr, plan, res, sig, base)
 			rf := replayFile{Property: prop, Signature: sig, Detail: v.Detail, Digest: mres.Digest, Plan: min,
 				Note: "replay with: ./check --replay <this file>"}
@@ -228,7 +242,7 @@ func trimPlan(p *props.Plan) *props.Plan {
 func shrink(pr props.Prop, plan *props.Plan, res *props.Result, sig string, base string) (*props.Plan, *props.Result) {
 	best, bestRes := plan.Clone(), res
 	tries := 0
-	stop := time.Now().Add(40 * time.Second)
+	stop := time.Now().Add(25 * time.Second)
 	try := func(c *props.Plan) bool {
 		if time.Now().After(stop) || tries > 400 {
 			return false
